@@ -24,6 +24,7 @@ type c07Case struct {
 	Start    int      `json:"start"`
 	Multi    bool     `json:"multi,omitempty"` // spread the failing tag/object over several lines
 	Decoy    bool     `json:"decoy,omitempty"` // the same construct also stands earlier, where it is not executed
+	Cache    bool     `json:"cache,omitempty"` // parse through ParseTemplateAndCache instead of ParseTemplateLocation
 }
 
 type c07Kind struct {
@@ -175,7 +176,11 @@ var c07Locate = hx.Define("c07.locate", func(c *c07Case, s *hx.Sub) *hx.Violatio
 	var tpl *liquid.Template
 	var perr, rerr liquid.SourceError
 	if pi := hx.Guard(func() {
-		tpl, perr = eng.ParseTemplateLocation([]byte(src), c.Path, c.Start)
+		if c.Cache {
+			tpl, perr = eng.ParseTemplateAndCache([]byte(src), c.Path, c.Start)
+		} else {
+			tpl, perr = eng.ParseTemplateLocation([]byte(src), c.Path, c.Start)
+		}
 		if perr == nil {
 			out, rerr = tpl.Render(map[string]any{"a": 1})
 		}
@@ -218,7 +223,7 @@ var c07Locate = hx.Define("c07.locate", func(c *c07Case, s *hx.Sub) *hx.Violatio
 		}
 	}
 	if len(c.Wrappers) >= 1 && wantLine > c.Start {
-		s.NTKey(fmt.Sprint(c.Kind, c.Wrappers, c.Gaps, c.Path != "", c.Start, c.Multi, c.Decoy))
+		s.NTKey(fmt.Sprint(c.Kind, c.Wrappers, c.Gaps, c.Path, c.Start, c.Multi, c.Decoy, c.Cache))
 	}
 	if s.WantSample() {
 		s.Sample(map[string]any{"template": src, "error": msg, "line": err.LineNumber(), "path": err.Path()})
@@ -270,7 +275,8 @@ func TestC07(t *testing.T) {
 			Kind:     rapid.SampledFrom(kinds).Draw(t, "kind"),
 			Wrappers: rapid.SliceOfN(rapid.SampledFrom(wrappers), 0, 6).Draw(t, "wrappers"),
 			Gaps:     rapid.SliceOfN(rapid.IntRange(0, 3), 1, 8).Draw(t, "gaps"),
-			Path:     rapid.SampledFrom([]string{"", "dir/t.html", "x.liquid"}).Draw(t, "path"),
+			Path:     rapid.SampledFrom([]string{"", "dir/t.html", "x.liquid", "./a.html", "a//b.html", "a/x/../b.html", "/abs/t.html", "dir/"}).Draw(t, "path"),
+			Cache:    rapid.IntRange(0, 2).Draw(t, "cache") == 0,
 			Start:    rapid.SampledFrom([]int{0, 1, 37, 1000}).Draw(t, "start"),
 			Multi:    rapid.Bool().Draw(t, "multi"),
 			Decoy:    rapid.Bool().Draw(t, "decoy"),
